@@ -91,15 +91,16 @@ func (e *Engine) model(st *State, g *G, fr *Frame, f *ssa.Function, args []Value
 			}
 			return IfaceV{e.errType, eo}, true, ""
 		case "Sprintf", "Sprint", "Sprintln":
-			return "<fmt>", true, ""
+			parts := make([]Value, len(args))
+			for i, a := range args {
+				parts[i] = e.snapshot(st, a, 6)
+			}
+			return SymStr{kind: "fmt." + name, parts: parts}, true, ""
 		}
 		return Opaque{full}, true, ""
 	case pkg == "crypto/sha256" && name == "Sum256":
-		sv := make(StructV, 32)
-		for i := range sv {
-			sv[i] = C(uint64(i), 8)
-		}
-		return sv, true, ""
+		// injective uninterpreted function of its (snapshotted) argument
+		return SymStr{kind: "sha256", parts: []Value{e.snapshot(st, args[0], 6)}}, true, ""
 	case pkg == "strconv" && name == "Itoa":
 		if t, ok := args[0].(*Term); ok && t.IsConst() {
 			return itoa(int64(t.Val)), true, ""
